@@ -278,12 +278,34 @@ func runC08(cfg config) {
 		desc := fmt.Sprintf("%s  [a=%s:%s] => %s", src, a.kind, strings.TrimPrefix(a.coq, "N"), oc)
 		sink.add(fmt.Sprintf("CUn %s (%s), %s", u.coq, a.coq, oc), desc, u.coq, u.coq+"|"+a.coq)
 	}
+	// decimals at the edges of the machine widths a conversion could pass through: int32, uint32, float64 mantissa, int64,
+	// uint64 (and small offsets from its multiples: the low 64 bits of those lie inside the int32 range), 2^128
+	var edgeDecs []string
+	for _, base := range []string{"2147483647", "2147483648", "4294967295", "4294967296", "9007199254740992", "9007199254740993", "9223372036854775807", "9223372036854775808",
+		"18446744073709551615", "18446744073709551616", "18446744073709551617", "18446744073709551623", "18446744075857035263", "18446744075857035264", "36893488147419103232",
+		"340282366920938463463374607431768211456", "1000000000000000000000000000000"} {
+		for _, frac := range []string{"", ".0", ".5", ".25", ".999"} {
+			edgeDecs = append(edgeDecs, base+frac, "-"+base+frac)
+		}
+	}
+	for _, d := range edgeDecs {
+		if !strings.Contains(d, ".") {
+			d += ".00"
+		}
+		for _, u := range uns {
+			runUn(decOperand(d, "sysvar"), u)
+			runUn(decOperand(d, "fhirDecimal"), u)
+		}
+		for _, op := range binops {
+			runBin(decOperand(d, "sysvar"), intOperand(pick(r, []int32{1, -1, 3, 2147483647, -2147483648}), "sysvar"), op)
+			runBin(intOperand(pick(r, []int32{1, -1, 7, 2147483647}), "sysvar"), decOperand(d, "sysvar"), op)
+		}
+	}
 	for _, u := range uns {
 		for _, x := range ints {
-			// System Integers and literals for every function; FHIR integer kinds where the
-			// implementation accepts them (ceiling/floor/truncate/round; negation via From).
+			// System Integers, literals and FHIR integer kinds for every function
 			runUn(intOperand(x, "sysvar"), u)
-			if u.coq != "Abs" {
+			{
 				if x > 0 {
 					runUn(intOperand(x, pick(r, []string{"fhirInteger", "fhirPositiveInt", "fhirUnsignedInt", "literal"})), u)
 				} else {
@@ -294,9 +316,7 @@ func runC08(cfg config) {
 		for _, d := range decs {
 			runUn(decOperand(d, "sysvar"), u)
 			runUn(decOperand(d, "literal"), u)
-			if u.coq == "Neg" || u.coq == "(Round 0)" {
-				runUn(decOperand(d, "fhirDecimal"), u)
-			}
+			runUn(decOperand(d, "fhirDecimal"), u)
 		}
 	}
 	sink.finish("all ordered pairs of the Integer boundary set x 6 operators (exhaustive), seeded random Integer/Decimal/mixed pairs over every operand source (System value, FHIR integer/positiveInt/unsignedInt/decimal element, literal), zero divisors of every type, and every unary numeric function over the pool; distinct = distinct (operator, operand values); all cases are non-trivial", false)
